@@ -2432,30 +2432,32 @@ impl WasmGenerator {
 
             // Logical operations (produce f64 0.0/1.0)
             I::And(a, b) => {
-                // Convert both operands to boolean, AND them, convert to f64
+                // Convert both operands to boolean, AND them, convert to f64.
+                // A value is true when it is > 0.0, as in the native VM and in `if`.
                 self.emit_value_load_typed(a, ValType::F64, func);
                 func.instruction(&W::F64Const(0.0));
-                func.instruction(&W::F64Ne);
+                func.instruction(&W::F64Gt);
                 self.emit_value_load_typed(b, ValType::F64, func);
                 func.instruction(&W::F64Const(0.0));
-                func.instruction(&W::F64Ne);
+                func.instruction(&W::F64Gt);
                 func.instruction(&W::I32And);
                 func.instruction(&W::F64ConvertI32U);
             }
             I::Or(a, b) => {
                 self.emit_value_load_typed(a, ValType::F64, func);
                 func.instruction(&W::F64Const(0.0));
-                func.instruction(&W::F64Ne);
+                func.instruction(&W::F64Gt);
                 self.emit_value_load_typed(b, ValType::F64, func);
                 func.instruction(&W::F64Const(0.0));
-                func.instruction(&W::F64Ne);
+                func.instruction(&W::F64Gt);
                 func.instruction(&W::I32Or);
                 func.instruction(&W::F64ConvertI32U);
             }
             I::Not(a) => {
                 self.emit_value_load_typed(a, ValType::F64, func);
                 func.instruction(&W::F64Const(0.0));
-                func.instruction(&W::F64Eq);
+                func.instruction(&W::F64Gt);
+                func.instruction(&W::I32Eqz);
                 func.instruction(&W::F64ConvertI32U);
             }
 
